@@ -315,7 +315,8 @@ def exhaustive(maxlen):
         for o in alpha:
             q = pm.copy()
             q.apply(o)
-            rec(prefix + [o], q, contig and q.contiguous())
+            # the Python model is exact only on closed, monotone states: only those prefixes go to the contiguous option sets
+            rec(prefix + [o], q, contig and q.contiguous() and q.closed_monotone())
     rec([], PM(), True)
     return out
 
@@ -437,7 +438,10 @@ def compare(ctx, hists, res, drvs, orc, do_shrink=True, seen_kinds=None):
                     sec = first_diff_section(es, o) if not o.startswith(("CRASH", "DIED")) else o.split()[0]
                     kind = "%s:%s" % (OPTSETS[k], sec)
                     ops = h["ops"][:j + 1]
-                    if kind not in seen_kinds and do_shrink and not os.environ.get("C01_NOSHRINK"):
+                    if kind not in seen_kinds and k in (3, 7):
+                        seen_kinds[kind] = 1
+                    # histories for the contiguous option sets are not shrunk: dropping an operation may leave a hole in the vertex set
+                    if kind not in seen_kinds and do_shrink and k not in (3, 7) and not os.environ.get("C01_NOSHRINK"):
                         seen_kinds[kind] = 1
                         try:
                             ops = shrink(drvs, orc, h["U"], ops, k, sec)
